@@ -32,10 +32,8 @@ func vEndOK(buf []byte, cursor int64) bool {
 // c05Verdicts asserts the acceptance sandwich RFC ⊆ accepted ⊆ RFC+listed relaxations.
 func c05Verdicts(t *verifrt.T, doc []byte, accepted bool) {
 	strict := verifref.ValidJSON(doc, verifref.Relax{})
-	ctrl := verifref.ValidJSON(doc, verifref.Relax{CtrlInString: true})
-	lax := verifref.ValidJSON(doc, verifref.Relax{CtrlInString: true})
+	lax := strict // every recorded relaxation of this destination is repaired
 	and, implies := verifrt.And, verifrt.Implies
-	t.Known("D4-raw-control-character-in-string-accepted", and(accepted, !strict, ctrl))
 	t.Assert("accept-only-listed-language", implies(accepted, lax))
 	// a number outside the float64 range is an error for this destination in encoding/json too
 	inRange := true
